@@ -254,6 +254,54 @@ def shifted_lists(ctx):
         ctx.count('shifted_lists')
 
 
+def fresh_keys(ctx):
+    """many comparisons in one process, each over non-string keys and indexes built at run time and dropped afterwards (floats, integers beyond the small-integer
+    cache, long lists): the path of each comparison names its own key -- nothing is remembered from the objects of an earlier one"""
+    import gc
+    from deepdiff import DeepDiff, DeepSearch, extract
+    from deepdiff.path import parse_path, _path_to_elements
+    n = 600 if ctx.thorough() else 150
+    for i in range(n):
+        r = ctx.rng.random()
+        if r < 0.4:
+            k = ctx.rng.randint(1, 4000) / 8.0 + i            # a float made now
+        elif r < 0.7:
+            k = 1000 + ctx.rng.randint(0, 10 ** 6) * 3 + i     # an int object of its own
+        elif r < 0.85:
+            k = -(ctx.rng.randint(300, 10 ** 5))
+        else:
+            k = float(ctx.rng.randint(2, 500))                 # a whole float: root[7.0], not root[7]
+        case = {'key': repr(k), 'iteration': i, 'clause': 'fresh keys, many comparisons in one process'}
+        ctx.evaluations += 1
+        t1 = {k: [i, 'x'], 'other': 0}
+        t2 = {k: [i, 'y'], 'other': 0}
+        try:
+            dd = DeepDiff(t1, t2)
+            (path,) = list(dd['values_changed'])
+            tr = DeepDiff(t1, t2, view='tree')
+            (lv,) = list(tr['values_changed'])
+            if lv.path() != path:
+                ctx.violate(case, 'tree path %r differs from text path %r' % (lv.path(), path)); continue
+            if lv.path(output_format='list') != [k, 1]:
+                ctx.violate(case, 'list-form path %r is not the location [%r, 1]' % (lv.path(output_format='list'), k)); continue
+            if extract(t1, path) != 'x' or extract(t2, path) != 'y':
+                ctx.violate(case, 'the path %r leads to another value' % path); continue
+            el = parse_path(path)
+            if not (len(el) == 2 and type(el[0]) is type(k) and el[0] == k and el[1] == 1):
+                ctx.violate(case, 'parse_path(%r) = %r, not the key %r' % (path, el, k)); continue
+            ds = DeepSearch({k: 'needle %d' % i, 'z': [0]}, 'needle %d' % i)
+            (sp,) = list(ds['matched_values'])
+            if extract({k: 'needle %d' % i, 'z': [0]}, sp) != 'needle %d' % i:
+                ctx.violate(case, 'the search path %r leads to another value' % sp); continue
+        except Exception as e:
+            ctx.violate(case, 'raised %s: %s' % (type(e).__name__, str(e)[:100])); continue
+        ctx.count('fresh_keys')
+        ctx.nontriv((repr(k), i))
+        del t1, t2, dd, tr, lv, k, ds
+        if i % 25 == 0:
+            gc.collect()
+
+
 def gen_sequences(ctx):
     seqs = []
     L = 3 if ctx.thorough() else 2
@@ -426,6 +474,7 @@ def run(ctx, impl_only=False):
         check_le(ctx)
     bytes_keys(ctx)
     shifted_lists(ctx)
+    fresh_keys(ctx)
     # ---- known findings (boundary witnesses outside SafeKey)
     kf = known(ctx)
     wit = {
